@@ -312,6 +312,9 @@ type c10Prog struct {
 	NewObjs  int      `json:"new_objs,omitempty"` // list objects Generate creates
 	Class    string   `json:"class"`              // lazy-const | spare-const | plain-const | no-const | opaque:<name>
 	ListBody bool     `json:"list_body,omitempty"`
+	// ListArg: source of an expression whose value (a list OBJECT, made once per session on the same generator and
+	// kept by the harness) is passed as first argument `l` to every evaluation of this program
+	ListArg string `json:"list_arg,omitempty"`
 }
 
 func c10MkProg(name string, defs []c10Def, body *c10E, listBody bool) *c10Prog {
@@ -449,6 +452,46 @@ func c10Pool() []*c10Prog {
 		c10Opaque("order-const", "let c=[3,1,2].orderLess((a,b)->a<b); c[a0]*10+c.append(a1).size()"),
 		c10Opaque("nested-const", "let c=[[1,2].map(e->e+1),[3].append(4)]; c[a0].append(a1).string()"),
 	}
+}
+
+func c10FullPool() []*c10Prog { return append(c10Pool(), c10FailingPool()...) }
+
+
+// lazy constants whose MATERIALISATION fails at an element k > 0 (List.Eval must leave the object untouched), and
+// the same for a lazy list object the harness passes as argument to several evaluations
+func c10FailingPool() []*c10Prog {
+	kinds := [][2]string{
+		{"index", "[0,1,2,3,0].map(i->[10,20,30][i])"},
+		{"type", "[1,2,\"x\",4].map(e->e*2)"},
+		{"modulo", "[4,2,0,5].map(e->10%e)"},
+		{"guard", "[5,6,7,8].map(e->e+0%(e-7)).map(e->e+1)"},
+		{"throw-runtime", "[1,2,3,4].map(e->if e=3 then throw(\"t\") else e)"},
+	}
+	consumers := [][2]string{
+		{"size", "%s.size()+a0"}, {"append", "%s.append(a0).string()"}, {"string", "%s.string()+a0"}, {"index", "%s[a0]"},
+		{"reduce", "%s.reduce((s,e)->s+e)+a0"}, {"first", "%s.first()+a0"}, {"top", "%s.top(a0).string()"},
+	}
+	var ps []*c10Prog
+	for _, k := range kinds {
+		for _, co := range consumers {
+			ps = append(ps, c10Opaque("failing-"+k[0]+"-"+co[0], "let c="+k[1]+"; "+fmt.Sprintf(co[1], "c")))
+		}
+	}
+	makers := [][2]string{
+		{"failing-index", "numbers(5).map(i->[10,20,30][i])"},
+		{"failing-modulo", "[4,2,0,5].map(e->10%e)"},
+		{"lazy", "numbers(4).map(e->e*3)"},
+		{"spare", "[1,2].append(3)"},
+	}
+	for _, m := range makers {
+		for _, co := range consumers {
+			p := c10Opaque("listarg-"+m[0]+"-"+co[0], fmt.Sprintf(co[1], "l"))
+			p.Args = []string{"l", "a0", "a1"}
+			p.ListArg = m[1]
+			ps = append(ps, p)
+		}
+	}
+	return ps
 }
 
 // ---------------------------------------------------------------- random programs of the modelled fragment
@@ -741,16 +784,33 @@ func (o c10Out) coq() string {
 
 // evaluate with the given arguments; of a list result the host pulls at most j elements and stops
 func c10Eval(f funcGen.Func[value.Value], args []int64, j int, modelled bool) c10Out {
-	v, err := c10Call(f, args)
+	v, err := c10Call(f, nil, args)
 	return c10Consume(v, err, j, modelled)
 }
 
-func c10Call(f funcGen.Func[value.Value], args []int64) (value.Value, error) {
-	vs := make([]value.Value, len(args))
-	for i, a := range args {
-		vs[i] = value.Int(a)
+// larg != nil: the pooled list object is passed as first argument
+func c10Call(f funcGen.Func[value.Value], larg value.Value, args []int64) (value.Value, error) {
+	var vs []value.Value
+	if larg != nil {
+		vs = append(vs, larg)
+	}
+	for _, a := range args {
+		vs = append(vs, value.Int(a))
 	}
 	return f.Eval(vs...)
+}
+
+// the list object for programs with a list argument: made by evaluating the maker expression once on fg
+func c10MakeList(fg *value.FunctionGenerator, src string) value.Value {
+	f, _, err := fg.Generate(src)
+	if err != nil {
+		fatal("c10: list maker %s does not generate: %v", src, err)
+	}
+	v, err := f.Eval()
+	if err != nil {
+		fatal("c10: list maker %s fails: %v", src, err)
+	}
+	return v
 }
 
 // what the host does with the result (possibly long after the evaluation returned it)
@@ -804,16 +864,22 @@ func c10Consume(v value.Value, err error, j int, modelled bool) c10Out {
 var c10OracleCache = map[string]c10Out{}
 
 func c10Oracle(p *c10Prog, args []int64, j int) c10Out {
-	key := fmt.Sprintf("%s|%v|%d", p.Src, args, j)
+	key := fmt.Sprintf("%s|%s|%v|%d", p.Src, p.ListArg, args, j)
 	if o, ok := c10OracleCache[key]; ok {
 		return o
 	}
-	f, _, err := value.New().Generate(p.Src, p.Args...)
+	fg := value.New()
+	f, _, err := fg.Generate(p.Src, p.Args...)
 	var o c10Out
 	if err != nil {
 		o = c10Out{Kind: "str", S: "generate-error"}
 	} else {
-		o = c10Eval(f, args, j, p.Coq != "")
+		var larg value.Value
+		if p.ListArg != "" {
+			larg = c10MakeList(fg, p.ListArg)
+		}
+		v, err := c10Call(f, larg, args)
+		o = c10Consume(v, err, j, p.Coq != "")
 	}
 	c10OracleCache[key] = o
 	return o
@@ -956,6 +1022,7 @@ func c10RunSession(c *c10Case, sum *Summary) *c10Result {
 	}
 	lastSeen := map[seenKey]int{}
 	var pending []func()
+	pooled := map[string]value.Value{} // maker source -> the ONE list object of this session
 	for n, ev := range c.Events {
 		switch ev.Kind {
 		case "gen":
@@ -983,7 +1050,15 @@ func c10RunSession(c *c10Case, sum *Summary) *c10Result {
 		case "eval":
 			fn := s.funcs[ev.K]
 			before := fn.allReps()
-			v, err := c10Call(fn.f, ev.Args)
+			var larg value.Value
+			if fn.prog.ListArg != "" {
+				if pooled[fn.prog.ListArg] == nil {
+					pooled[fn.prog.ListArg] = c10MakeList(s.fg, fn.prog.ListArg)
+				}
+				larg = pooled[fn.prog.ListArg]
+				sum.Count("list_argument", "pooled list object passed as argument")
+			}
+			v, err := c10Call(fn.f, larg, ev.Args)
 			after := fn.allReps()
 			res.outs = append(res.outs, c10Out{})
 			res.coqEvents = append(res.coqEvents, "")
@@ -1076,7 +1151,11 @@ func c10Describe(c *c10Case, res *c10Result) map[string]any {
 	var lines []string
 	for n, ev := range c.Events {
 		if ev.Kind == "gen" {
-			lines = append(lines, fmt.Sprintf("%d: f%d := Generate(%q, a0, a1)", n, ev.K, ev.Prog.Src))
+			la := ""
+			if ev.Prog.ListArg != "" {
+				la = "   [l = ONE list object per session, made by evaluating " + ev.Prog.ListArg + " on this generator, passed to every evaluation]"
+			}
+			lines = append(lines, fmt.Sprintf("%d: f%d := Generate(%q, %s)%s", n, ev.K, ev.Prog.Src, strings.Join(ev.Prog.Args, ", "), la))
 		} else {
 			o := ""
 			if res != nil && n < len(res.outs) {
@@ -1108,7 +1187,7 @@ func cmdC10(seed int64, tier, outDir string) {
 	cw.prelude = fmt.Sprintf("Definition go_caps := caps_of_tables %s %s.\n", c10NatList(evalCap), c10NatList(appCap))
 	sum.Extra["go_append_capacities"] = map[string]any{"eval_loop": evalCap[:20], "append_to_full": appCap[:20]}
 
-	pool := c10Pool()
+	pool := c10FullPool()
 	var cases []*c10Case
 	if optReplay != "" {
 		var c c10Case
